@@ -235,6 +235,35 @@ def parquet_component(ck, rd, rng, tier):
         rd.run_batch(comp, items[i:i + 25])
 
 
+def varint_component(ck, tier):
+    """Core/Varint.lean vs the real thrift compact reader (read_i64 = read_vlq + zig-zag, through a cfg hook) on byte strings biased
+    towards long continuation runs; a panic of the real reader is a violation with the bytes as replay."""
+    comp = "varint"
+    if vlib.HARNESS_DEGRADED:
+        ck.violation("varint/harness", "the varint hook is not available (harness built without internals)", {"correspondence": "gvh varint"}, found_input=False)
+        return
+    res = vlib.run_pair("varint", [ck.seed, 3000 if tier == "quick" else 200000])
+    if res["rc"] != 0 or not res["cases"]:
+        ck.violation("varint/harness", "gvh varint failed: " + res["stderr"][-300:], {"correspondence": "gvh varint", "stderr": res["stderr"]}, found_input=False)
+        return
+    diffs = 0
+    kinds = {"ok": 0, "err": 0}
+    for k, line in res["cases"].items():
+        ck.count(comp, 1)
+        ck.nontrivial(line)
+        i, m = res["impl"].get(k), res["model"].get(k)
+        if i == "panic":
+            ck.violation("varint/panic", f"the thrift varint reader panics on {line}", {"kind": "crash", "case": line})
+            continue
+        kinds["ok" if (i or "").startswith("ok") else "err"] += 1
+        if i != m:
+            diffs += 1
+            if diffs <= 3:
+                ck.violation("varint/model-diff", f"Core/Varint.lean and read_vlq disagree: {line} impl={i} model={m}", {"correspondence": "Varint.readVlq vs TCompactSliceInputProtocol::read_vlq", "case": line, "impl": i, "model": m}, found_input=False)
+    ck.note(comp, "model_diffs", diffs)
+    ck.note(comp, "outcomes", kinds)
+
+
 def csv_component(ck, rd, rng, tier):
     comp = "csv"
     good = b"id,name,score\n1,ann,1.5\n2,\"b,ob\",2.5\n3,\"c\"\"q\",\n"
@@ -287,6 +316,7 @@ def main():
     rng = Rng(ck.seed * 2221 + 19)
     rd = Reader(ck, "parquet")
     try:
+        varint_component(ck, tier)
         footer_component(ck, rd, rng)
         parquet_component(ck, rd, rng, tier)
     finally:
